@@ -68,6 +68,10 @@ RULE = ("exhaustive histories over small universes (mk: 3 keys x 2 values, tuple
         "decorator with and without keep_name, keys of mixed kinds and keys equal across types (1 / 1.0 / True); the "
         "iteration ORDER of the three dicts is compared with the model's association lists, list(d) / d.values() / d.keys() "
         "must enumerate alike, iter(sd) in the order of sd.values(), sd.__doc__ must not raise, report len(sd) and name every name; "
+        "the __doc__ CONTENT (one heading per strategy under its oldest name, '(Default)' on the default strategy only, aliases "
+        "in key-tuple order); for sd histories the final sd[k] is compared with `sdLastAssigned` read off the history alone; "
+        "entry sdn (outside the property, as coded): exhaustive depth <= 3 histories over 10 operations using the NAME 'default' "
+        "(sd['default'] = f, del sd['default'], del sd.default) against the as-coded model, model only; "
         "a case is non-trivial when at least one assignment succeeded and "
         "the final dict is non-empty or an exception was observed; distinct = distinct JSON history")
 TRUSTED = [
@@ -99,11 +103,22 @@ ASSUMPTIONS = [
     "their __eq__ (two equal values with different hashes end up in two groups: Python's own dict contract is broken "
     "first); cross-type equal VALUES and KEYS form ONE class and the property fixes d[k] / the tuple items only up to == : "
     "which of the equal objects is handed back is not fixed and not compared.  A key that is itself a tuple (only reachable "
-    "as an item of a key tuple, `d[((1, 2), 3)] = v`) is outside: `d[(1, 2)]` then looks at the storage, not at the key",
+    "as an item of a key tuple, `d[((1, 2), 3)] = v`) is outside: `d[(1, 2)]` then looks at the storage, not at the key; "
+    "observed as is (histogram `outside_the_property_observed_as_is`): d['c'] = 1; d[(('c',),)] = 5; del d[('c',)] succeeds and "
+    "leaves the three maps incoherent (value 1 in the storage, not in _inv_dict), and d[(('c',),)] = 5; d['b'] = 5 raises KeyError. "
+    "DECISION: a restriction of the key type ('single key or key tuple': a tuple is always a key TUPLE), not a finding",
     "key tuples are non-empty (the empty tuple is exercised separately, see known findings)",
     "StrategyDict names are strings different from 'default' and from every attribute/method of the class (a name "
     "attribute shadows the method: after sd['items'] = f, sd.__doc__ raises; sd['_keys_dict'] = f breaks the dict; "
-    "sd['default'] = f; del sd['default'] raises AttributeError after removing the item); "
+    "sd['default'] = f; del sd['default'] raises AttributeError after removing the item).  DECISION: 'exposes every name as an "
+    "attribute equal to the item' HOLDS for such names (getattr(sd, name) is the strategy) — what breaks is the class's own "
+    "machinery that the instance attribute shadows; a documented restriction (strategy(): names are 'used both as key items and "
+    "as attribute names'), recorded in the histogram `outside_the_property_observed_as_is`.  The name 'default' is modelled AS "
+    "CODED (sdSetDefaultName / sdDelDefaultName / sdDelattrDefaultName, theorems C15.44-46, entry sdn of the tie): the strategy "
+    "becomes THE default whatever was stored first, and deleting the name raises AttributeError after everything was removed; "
+    "the decorator renames the strategy (func.__name__ = names[0]) BEFORE the assignment, so a refused sd.strategy('a', 3)(g) "
+    "leaves g renamed: a side effect on the strategy object, not on the dict — recorded in the same histogram, outside the "
+    "property (swapping the two statements would make a bound method, whose __name__ cannot be set, fail AFTER it was stored); "
     "stored strategies are never the class-level default lambda; an assignment naming a non-string is expected to be "
     "refused as a whole (the code raises TypeError today, see known findings)",
     "an operation that raises (missing key, unhashable key / value, a value's own __hash__ or __eq__ raising) must leave "
@@ -133,7 +148,12 @@ MANIFEST = {
              "the specification's items, list(d) / d.values() / d.keys() enumerate in one order; the inherited `in` / get see "
              "complete key tuples; the constructor collapses its arguments as dict(...) and yields a coherent dict; the code "
              "before the repairs 9cbe718 / 735182a (half-way failing assignments) is kept as a regression model with theorems "
-             "saying what it destroyed.  Tied to /repo by exhaustive small-universe, random and long histories over value and key "
+             "saying what it destroyed; round 4: sd[k] = the last strategy assigned to the name k read off the history alone "
+             "(sdLastAssigned), deleting anything that is not a bound single key raises KeyError for EVERY key shape (tuples of any "
+             "length, non-strings) on both classes, a refused assignment anywhere in a call history with the offending item at any "
+             "position leaves every later result and the final state as if never issued, attribute = item and default = first "
+             "stored for call histories; the NAME 'default' as coded (outside the property: it overrides the default and its "
+             "deletion raises after removing).  Tied to /repo by exhaustive small-universe, random and long histories over value and key "
              "universes in which equality, identity and type differ, incl. iteration order of the three dicts."),
     "note": ("Trusted: Lean kernel (axioms propext, Classical.choice, Quot.sound), the Python correspondence harness; the "
              "model (Python dict = insertion-ordered association list, vars(self) = association list) is hand written "
@@ -490,6 +510,9 @@ def _case(entry, ops, route="plain", view="all", vf=None, kf="plain", decoy=Fals
     every prefix as a history of its own); results are observed at every step in all modes.
     init = {"form": ..., "pairs": [[keys, v, r], ...]}: the arguments of the constructor (mk)"""
     keys, vals = _universe(([["set", p[0], p[1]] for p in init["pairs"]] if init else []) + ops)
+    if entry == "sdn":
+        # the name "default" itself is not looked up in the views (getattr(sd, "default") is the default)
+        keys = [k for k in keys if k != "default"]
     # key tuples looked up as a whole (`d[(a, b)]`): singletons and ordered pairs of the first keys
     ks = keys[:3]
     tuples = [[k] for k in ks] + [[a, b] for a in ks for b in ks if a != b]
@@ -746,6 +769,10 @@ SD_REJ = [["setu", ["a"], "nohash"], ["setu", ["a", "b"], "badhash"], ["bad", "g
           ["setns", [], [], 0], ["setns", ["a"], [], 1]]
 
 
+SDN_OPS = [["set", ["default"], 0], ["set", ["default"], 1], ["del", "default"], ["delattr", None],
+           ["set", ["a"], 0], ["set", ["a"], 1], ["set", ["a", "b"], 1], ["del", "a"], ["setattr", None, 1], ["call"]]
+
+
 def _with_rejected(base, rej, depth):
     """histories of the given depth over base + rej holding at least one rejected operation"""
     for h in itertools.product(base + rej, repeat=depth):
@@ -832,6 +859,13 @@ def generate(rng, tier, scale=1):
         # cross-type equal keys and keys of mixed kinds, exhaustively (depth 2)
         for n, h in enumerate(itertools.product(ops, repeat=2)):
             cases.append(_case("mk", list(h), view="all", vf=("int", "num", "scale")[n % 3], kf=("numeq", "kinds")[(n // 3) % 2]))
+        # OUTSIDE the property, as coded (entry sdn): the NAME "default" collides with the attribute `default`
+        # (sd["default"] = f makes f THE default; del sd["default"] raises AttributeError after removing
+        # everything when it was the only name) — exhaustive depth <= 3 over a small alphabet
+        for depth in (1, 2, 3):
+            for h in itertools.product(SDN_OPS, repeat=depth):
+                if any(op[1:2] in (["default"], [["default"]]) for op in h):
+                    cases.append(_case("sdn", [list(op) for op in h], view="all"))
         # malformed stream: empty key tuple
         for v in (0, 1):
             cases.append(_case("mk", [["set", [], v]], "empty"))
@@ -1305,6 +1339,27 @@ def _impl_sd(c):
         want = sorted(set(k for kt in dict.keys(sd) for k in kt))
         if named != want:
             alias.append("__doc__ names %r, stored %r" % (named, want))
+            return
+        # content: one heading per strategy under its OLDEST name, "(Default)" on the default strategy and on no
+        # other, the remaining names listed as aliases in the order of the key tuple
+        has_default = "default" in vars(sd)
+        dflt = vars(sd).get("default")
+        for kt, v in dict.items(sd):
+            if not kt:
+                continue
+            head = "**Strategy sd_under_test.%s%s**." % (kt[0], " (Default)" if has_default and v == dflt else "")
+            if head not in doc:
+                alias.append("__doc__ lacks the heading %r" % head)
+            rest = ["sd_under_test.%s" % k for k in kt[1:]]
+            if len(rest) == 1 and "An alias for it is ``%s``." % rest[0] not in doc:
+                alias.append("__doc__ lacks the alias of %r" % (kt[0],))
+            if len(rest) > 1 and "Aliases available are ``%s``." % "``, ``".join(rest) not in doc:
+                alias.append("__doc__ lacks the aliases of %r" % (kt[0],))
+        if doc.count(" (Default)**.") != sum(1 for v in dict.values(sd) if has_default and v == dflt):
+            alias.append("__doc__ marks %d strategies as default" % doc.count(" (Default)**."))
+        if ("Default unnamed strategy" in doc) != (has_default and not any(v == dflt for v in dict.values(sd))) \
+                and has_default:
+            alias.append("__doc__ and the unnamed default disagree")
 
     level = _view_level(c)
     steps = []
@@ -1434,7 +1489,7 @@ def impl(c):
 
 
 def request(c):
-    sd = c["entry"] == "sd"
+    sd = c["entry"] != "mk"
     booms = ()
     if c.get("vf") == "picky":
         k = _boom_key(c)
@@ -1549,7 +1604,10 @@ def first_diff(c, io, drv, kind):
         if bad:
             return (i, bad)
     if kind == "spec" and "last" in drv and io["steps"] and io["steps"][-1] is not None:
-        if io["steps"][-1]["get"] != drv["last"]:
+        # `lastAssigned` / `sdLastAssigned` of the history alone (C15.7 / C15.37); None = a name the history
+        # deletes through its attribute, where the theorem does not speak
+        if any(w is not None and g != w for g, w in zip(io["steps"][-1]["get"], drv["last"])) or \
+                len(io["steps"][-1]["get"]) != len(drv["last"]):
             return (len(io["steps"]) - 1, ["last-assigned"])
     return None
 
@@ -1565,6 +1623,15 @@ def _model_follows_defect(c):
 
 def compare(c, io, drv):
     out = []
+    if c["entry"] == "sdn":
+        # outside the property: only the correspondence with the as-coded model
+        d = first_diff(c, io, drv, "model")
+        if d is not None:
+            i, bad = d
+            _DIFF_AT[id(c)] = i
+            op = c["ops"][i] if 0 <= i < len(c["ops"]) else None
+            out.append(("model", "sdn: step %d %r: impl differs from the as-coded model in %s" % (i, op, ",".join(bad))))
+        return out
     # The empty key tuple and the half-way failing assignments are outside the theorems (`Op.valid`).
     # The spec says what the property wants (bind no key / change nothing); the model follows the code
     # as it is today.  For such histories only the spec is authoritative (so that a repaired repo is
@@ -1653,11 +1720,91 @@ def _arg_shape(op):
     return "%s%s:%s" % ("single" if "s" in arg else "tuple%d" % min(len(items), 4), "/dup" if dup else "", what)
 
 
+def _outcome(f):
+    try:
+        r = f()
+        return "ok" if r is None else "ok:%s" % (r,)
+    except Exception as e:
+        return err_kind(e)
+
+
+def _outside_observed():
+    """directed experiments on inputs the ASSUMPTIONS exclude: what the code does today, recorded in the
+    evidence (histogram only, no obligation) so that a change of behaviour there is visible"""
+    from audiolazy import MultiKeyDict, StrategyDict
+    out = []
+
+    def state(d):
+        return "store=%r keys=%r inv=%r" % (sorted(map(repr, dict.items(d))), sorted(map(repr, d._keys_dict.items())),
+                                            sorted(map(repr, d._inv_dict.items())))
+    # (1) a key that is itself a tuple: stored, never found again by d[...] (a tuple argument is a key TUPLE);
+    #     deleting it looks the VALUE up through the storage and can take another value's entry away
+    d = MultiKeyDict()
+    d["c"] = 1
+    d[(("c",),)] = 5
+    out.append("tuple-valued key: d['c']=1; d[(('c',),)]=5; d[('c',)] -> %s (the value of key 'c', not of key ('c',))"
+               % _outcome(lambda: d[("c",)]))
+    out.append("tuple-valued key: ... del d[('c',)] -> %s; %s; len=%d list(d)=%r (incoherent: value 1 kept in the "
+               "storage but gone from _inv_dict)" % (_outcome(lambda: d.__delitem__(("c",))), state(d), len(d), list(d)))
+    d = MultiKeyDict()
+    d[(("c",),)] = 5
+    out.append("tuple-valued key: d[(('c',),)]=5; d['b']=5 -> %s (the merge cannot delete the tuple-valued key); %s"
+               % (_outcome(lambda: d.__setitem__("b", 5)), state(d)))
+
+    # (2) values whose hash disagrees with ==: two groups for "equal" values
+    class H(object):
+        def __init__(self, h):
+            self.h = h
+
+        def __eq__(self, other):
+            return isinstance(other, H)
+
+        def __hash__(self):
+            return self.h
+    d = MultiKeyDict()
+    d["a"] = H(1)
+    d["b"] = H(2)
+    out.append("hash disagrees with ==: d['a']=H(1); d['b']=H(2) (H(1) == H(2)) -> len=%d keys=%r"
+               % (len(d), sorted(dict.keys(d))))
+
+    # (3) StrategyDict names colliding with attributes of the class (the instance attribute shadows them)
+    def f0(*a, **k):
+        return "f0"
+
+    def f1(*a, **k):
+        return "f1"
+    for name in ("items", "_keys_dict", "_inv_dict", "key2keys", "strategy", "default"):
+        sd = StrategyDict("x")
+        sd["a"] = f0
+        r = _outcome(lambda: sd.__setitem__(name, f1))
+        obs = ["sd[name]=f1 -> %s" % r,
+               "sd['a'] -> %s" % _outcome(lambda: sd["a"].__name__),
+               "getattr(sd, name) is f1 -> %s" % _outcome(lambda: getattr(sd, name) is f1),
+               "default -> %s" % _outcome(lambda: sd.default.__name__),
+               "__doc__ -> %s" % _outcome(lambda: "str" if isinstance(sd.__doc__, str) else "?"),
+               "del sd[name] -> %s" % _outcome(lambda: sd.__delitem__(name)),
+               "names left %r" % (sorted(k for kt in dict.keys(sd) for k in kt),)]
+        out.append("name collides with class attribute %r: %s" % (name, "; ".join(obs)))
+
+    # (4) the decorator renames the strategy BEFORE the assignment: a refused assignment leaves it renamed
+    for names, what in ((("a", 3), "non-string name"), (("b", []), "unhashable name")):
+        sd = StrategyDict("x")
+
+        def g(*a, **k):
+            return "g"
+        r = _outcome(lambda: sd.strategy(*names)(g))
+        out.append("decorator refused (%s): sd.strategy%r(g) -> %s, g.__name__ afterwards %r, len(sd)=%d"
+                   % (what, names, r, g.__name__, len(sd)))
+    return out
+
+
 def extra_checks(eng):
     """no obligation, a record of the scope decision: the dict mutators the property does not name are
     still the ones inherited from dict (they bypass the three maps); if the class starts overriding
     one, the histogram shows it and the decision should be revisited"""
     from audiolazy import MultiKeyDict, StrategyDict
+    for tag in _outside_observed():
+        eng.count("outside_the_property_observed_as_is", tag)
     for name in _MUTATORS:
         for cls in (MultiKeyDict, StrategyDict):
             own = any(name in vars(k) for k in cls.__mro__ if k not in (dict, object))
@@ -1899,7 +2046,7 @@ def neighbours(c):
 
 
 def classify(c, io, drv):
-    d = first_diff(c, io, drv, "spec") or first_diff(c, io, drv, "model")
+    d = (first_diff(c, io, drv, "spec") if c["entry"] != "sdn" else None) or first_diff(c, io, drv, "model")
     if d is None:
         return c["entry"] + ":agree"
     i, bad = d
